@@ -115,8 +115,22 @@ func (w *World) Run(parent *dao.Simple, height uint32, ts uint64, scr []byte, si
 	for _, it := range ic.VM.Estack().ToArray() {
 		o.Stack = append(o.Stack, Norm(it))
 	}
-	o.Notifs = w.normNotifs(ic.Notifications)
+	o.Notifs = maskTxHash(w.normNotifs(ic.Notifications), tx.Hash())
 	return o
+}
+
+// maskTxHash replaces the carrier transaction's hash (NeoFS Deposit/Withdraw notifications
+// carry it) by a constant: the two executors necessarily build different transactions.
+func maskTxHash(ns []Notif, h util.Uint256) []Notif {
+	le, be := "x"+hex.EncodeToString(h.BytesLE()), "x"+hex.EncodeToString(h.BytesBE())
+	for i := range ns {
+		for j, a := range ns[i].Args {
+			if s, ok := a.(string); ok && (s == le || s == be) {
+				ns[i].Args[j] = "xTXHASH"
+			}
+		}
+	}
+	return ns
 }
 
 func (w *World) normNotifs(evs []state.NotificationEvent) []Notif {
@@ -375,7 +389,7 @@ func (w *World) ReplayOnBlocks(trace []TraceEntry, dumps map[int]map[string]stri
 				for _, it := range aer.Stack {
 					o.Stack = append(o.Stack, Norm(it))
 				}
-				o.Notifs = w.normNotifs(aer.Events)
+				o.Notifs = maskTxHash(w.normNotifs(aer.Events), txs[k-i].Hash())
 			}
 			if d := o.Digest(); d != trace[k].Obs {
 				return fmt.Sprintf("call %d (%s): layered %s | block %s", k, trace[k].Call.Label, trace[k].Obs, d)
